@@ -39,7 +39,14 @@ class SignalGet(FnSpec):
 
     def requires(self, F):
         # the declaration was named by __set_name__ (it is a class attribute); its topic is a string
-        return [("declaration-has-topic", Val.is_str(F.old.fld("_topic", F.addr("self"))))]
+        inst = F.t("instance")
+        me = F.addr("self")
+        return [("declaration-has-topic", Val.is_str(F.old.fld("_topic", me))),
+                # descriptor wiring: for Context objects the attribute `resource_added` is Context.resource_added
+                ("context-resource_added-is-a-ResourceEvent-signal",
+                 z3.Implies(z3.And(Val.is_ref(inst), subcls(F.old.fld("__class__", Val.a(inst)), con("Context")),
+                                   F.old.fld("_topic", me) == sid("resource_added")),
+                            F.old.fld("event_class", me) == con("ResourceEvent")))]
 
     def ensures(self, F):
         reg = F.eng.reg
@@ -94,6 +101,18 @@ class SignalGet(FnSpec):
             out.append((f"old-objects-untouched:{c}", z3.ForAll([x], z3.Implies(z3.And(x < F.old.alloc), F.same_at(c, x)),
                                                                 patterns=[z3.Select(F.new.h(c), x)])))
         return out
+
+
+    def call_site_extra(self, F):
+        # A-DESC (descriptor wiring, assumed): an instance reaches exactly one declaration per attribute name, and every
+        # signal stored in the binding table was created by __get__ from that declaration - so also on re-access the
+        # returned signal is bound and carries the declaration's event class (proved here only for first access)
+        F.new_st.uses.add("A-DESC")
+        r = Val.a(F.result.t)
+        return [("A-DESC", z3.Implies(F.t("instance") != VNone,
+                                      z3.And(F.new.isset("_instance", r),
+                                             F.new.fld("event_class", r) == F.old.fld("event_class", F.addr("self")),
+                                             F.new.fld("_topic", r) == F.old.fld("_topic", F.addr("self")))))]
 
 
 class CheckBound(FnSpec):
@@ -162,6 +181,10 @@ def register(reg):
     reg.ghost_comps.update({"g:ev_len": AI, "g:ev_item": LI, "g:q_len": AI, "g:q_item": LI, "g:warns": I})
     reg.ext_calls["weakref.ref"] = lambda eng, st, pos, kw, node: [Res(st, SV(Val.wref(pos[0].t), ANY))]
     reg.immutable_fields |= {("Signal", "event_class"), ("Signal", "_topic"), ("Signal", "_instance"), ("Signal", "_send_streams")}
+
+    reg.assumptions_text["A-DESC"] = ("descriptor wiring: an instance reaches exactly one Signal declaration per attribute name and only "
+                                      "Signal.__get__ writes the binding table, so a re-accessed bound signal is bound and carries the "
+                                      "declaration's event class and topic (proved for first access, assumed for re-access)")
 
     # ghost event log: only grows (G-ev); unallocated signals have an empty log (I-ev0)
     def g_ev(old, new):
